@@ -71,6 +71,12 @@ var subsystems = []string{
 }
 
 var sharedPrograms = []string{
+	// error objects with stack text and an uncaught error: the first source-position queries on the shared
+	// Script / Program happen concurrently
+	`var __n = (typeof __n === "number" ? __n : 0) + 1; function sharedThrower(k){ if (k <= 0) { null.boom } return sharedThrower(k - 1) }
+ try { sharedThrower(3) } catch (e) { log("stack", typeof e.stack, String(e.stack).split("\n").length, e.name) }
+ try { undefinedFunctionShared() } catch (e) { log(e.name, String(e.stack).length > 0) }
+ log("shared run", __n); if (__n % 2 === 0) { throw new RangeError("uncaught from shared " + __n) } __n;`,
 	`var __n = (typeof __n === "number" ? __n : 0) + 1; log("shared run", __n, /x+/.test("axxb"), JSON.stringify([__n]), [3,1,2].sort().join("")); function sharedFn(a){ return a + __n } sharedFn(10);`,
 	`(function(){ var t = 0; for (var i = 0; i < 60; i++) { t += (i * 7) % 5 } log("sum", t, typeof counter, (12.5).toFixed(1), "Ab".toLowerCase()); return t })()`,
 	`var sh = {list: [1, 2, 3], re: /a(b)c/g}; sh.re.lastIndex = 0; log(sh.re.exec("abcabc")[1], sh.re.lastIndex, sh.list.map(function(x){ return x + 1 }).join()); try { throw new Error("shared") } catch (e) { log(e.message) } sh.list.length;`,
@@ -91,6 +97,10 @@ func runOn(vm *otto.Otto, src interface{}) string {
 	r := harness.Run(vm, src)
 	if r.Budget {
 		panic(budgetHit{})
+	}
+	if oe, ok := r.Err.(*otto.Error); ok {
+		// the full text with the stack trace: resolves source positions in the (possibly shared) file
+		return "throws:" + oe.String()
 	}
 	return r.Describe()
 }
@@ -118,6 +128,9 @@ func buildTemplate(setup []string) *otto.Otto {
 	t.SetStackDepthLimit(200)
 	harness.Arm(t, 2_000_000)
 	runOn(t, heap.Prelude)
+	for _, p := range heap.RichSetup() { // every clone path is present in every template
+		runOn(t, p)
+	}
 	for _, p := range setup {
 		runOn(t, p)
 	}
@@ -151,6 +164,9 @@ func execute(vm *otto.Otto, spec rtSpec, script *otto.Script, program *ast.Progr
 			out = append(out, "program:"+runOn(vm, program))
 		}
 	}
+	// call every function the history and the programs left in the global scope (closures, bound functions
+	// made before Copy() …): storage shared between a template and its copies is then used concurrently
+	out = append(out, "exercise:"+runOn(vm, heap.Exercise))
 	out = append(out, "trace:"+runOn(vm, `__trace.join("\n")`))
 	return out
 }
@@ -417,8 +433,8 @@ func countKind(c raceCase, k string) int {
 
 var raceFacet = harness.Register(&harness.Facet[raceCase]{
 	Name: "concurrent-runtimes",
-	Rule: "rapid: a template history (heap builders), one shared source compiled once to a Script and parsed once to a Program, and 2-8 runtimes of mixed provenance (fresh, copies of the template, the template itself), each with 1-4 private programs (heap builders/mutators, programs touching every subsystem with package-level data: regexp, JSON, Date, sort, number formatting, Math with a per-runtime random source, URI functions, error creation and stack text, accessor descriptors, Function/eval, strings; 30% from the semantic generator), half of them with an interrupt channel, a Script reuse count 1-50, GOMAXPROCS 2/4/16, optionally Copy() of the template from several goroutines while it runs. Executed in a -race worker subprocess. Oracle: (1) no race report / fatal error (worker death is attributed to the case), (2) each runtime's results and host-free trace equal those of the same programs run alone sequentially, (3) the structural hash of the compiled Script (read-only reflection over all fields) is unchanged by execution. Non-trivial = at least two runtimes share the Script/Program or the template; distinct by case",
-	Quick:    40,
+	Rule: "rapid: a template history (all heap builders plus 1-3 drawn ones), one shared source compiled once to a Script and parsed once to a Program, and 2-8 runtimes of mixed provenance (fresh, copies of the template, the template itself), each with 1-4 private programs followed by a call of every function left in the global scope (heap builders/mutators, programs touching every subsystem with package-level data: regexp, JSON, Date, sort, number formatting, Math with a per-runtime random source, URI functions, error creation and stack text, accessor descriptors, Function/eval, strings; 30% from the semantic generator), half of them with an interrupt channel, a Script reuse count 1-50, GOMAXPROCS 2/4/16, optionally Copy() of the template from several goroutines while it runs. Executed in a -race worker subprocess. Oracle: (1) no race report / fatal error (worker death is attributed to the case), (2) each runtime's results and host-free trace equal those of the same programs run alone sequentially, (3) the structural hash of the compiled Script (read-only reflection over all fields) is unchanged by execution. Non-trivial = at least two runtimes share the Script/Program or the template; distinct by case",
+	Quick:    60,
 	Thorough: 220,
 	Gen: func(t *rapid.T) raceCase {
 		c := raceCase{Reuse: rapid.SampledFrom([]int{1, 2, 5, 20, 50}).Draw(t, "reuse"), Procs: rapid.SampledFrom([]int{2, 4, 16}).Draw(t, "procs")}
